@@ -24,6 +24,9 @@ type PlanC13 struct {
 	CliMux   bool         `json:"cli_mux"`
 	Faults   FaultSpec    `json:"faults"`
 	Back     FaultSpec    `json:"back"`
+	// TermCtxMs is the context deadline of the terminating call (0 = 20 s). With a short one the
+	// call may give up while traffic is in flight: the session must still be released.
+	TermCtxMs int `json:"term_ctx_ms,omitempty"`
 }
 
 func genC13(t *simrt.Tape, tier string) interface{} {
@@ -45,6 +48,11 @@ func genC13(t *simrt.Tape, tier string) interface{} {
 		p.CliDelay = append(p.CliDelay, []int{0, 1, 30, 300}[t.Draw(4)])
 	}
 	p.CliMux = t.Draw(2) == 0
+	if t.Draw(5) == 0 && (p.Term == 1 || p.Term == 2) {
+		// (server-side terminators only: they close the connection even when they give up, so the
+		// session is over either way; a client FinishSession that gives up leaves it established)
+		p.TermCtxMs = []int{1, 50, 400}[t.Draw(3)]
+	}
 	if p.Conf.Listeners[0] != "inproc" && t.Draw(3) == 0 {
 		p.Faults = benignFaults(t, 1500)
 		p.Back = benignFaults(t, 1500)
@@ -221,7 +229,11 @@ func runC13(w *World, pi interface{}) {
 	var termErr error
 	termRet := NewFlag()
 	go func() {
-		ctx, cancel := context.WithTimeout(context.Background(), 20*time.Second)
+		tctx := 20 * time.Second
+		if p.TermCtxMs > 0 && (p.Term == 1 || p.Term == 2) {
+			tctx = time.Duration(p.TermCtxMs) * time.Millisecond
+		}
+		ctx, cancel := context.WithTimeout(context.Background(), tctx)
 		defer cancel()
 		switch p.Term {
 		case 0:
@@ -263,7 +275,10 @@ func runC13(w *World, pi interface{}) {
 	}
 	if ch != nil {
 		ok := w.Eventually(drain, func() bool { return ch.State() == wantState })
-		if !ok && (termErr == nil || p.Term >= 1) {
+		// (a terminating call that was given too short a context and reported that it gave up has
+		// not ended the session in an orderly way: only the release rules below apply then)
+		gaveUp := p.TermCtxMs > 0 && (p.Term == 1 || p.Term == 2) && termErr != nil
+		if !ok && !gaveUp && (termErr == nil || p.Term >= 1) {
 			what := "state=" + string(ch.State())
 			detail := ""
 			if p.Term == 4 && len(p.S2C) > 0 && maxInt(p.CliDelay) >= 100 {
@@ -299,6 +314,25 @@ func runC13(w *World, pi interface{}) {
 	for _, fl := range append(d1, d2...) {
 		fl.WaitFor(2 * time.Minute)
 	}
+	// nothing keeps waiting on the ended session: a send on it is refused, not left hanging
+	lateSend := func(who string, snd lime.Sender) {
+		txt := lime.TextDocument("late")
+		m := &lime.Message{}
+		m.SetContent(&txt).SetID("late-" + who)
+		if !w.Bounded("late send on the ended session ("+who+")", 30*time.Second, func() {
+			lctx, lcancel := context.WithTimeout(context.Background(), 2*time.Second)
+			defer lcancel()
+			_ = snd.SendMessage(lctx, m)
+		}) {
+			w.Violate("C13.send-on-ended-session-blocked", sig(who), "a SendMessage with a 2 s context on the %s channel of the ended session was still blocked 30 s later", who)
+		}
+	}
+	if p.Term != 4 {
+		lateSend("server", sch)
+	}
+	if ch != nil {
+		lateSend("client", ch)
+	}
 	// the observing side closes its channel (the high-level client did so itself)
 	if ch != nil {
 		ch.Close()
@@ -311,7 +345,7 @@ func runC13(w *World, pi interface{}) {
 	var left []string
 	for _, ti := range simrt.Census() {
 		s := ti.SpawnSite
-		isSession := strings.HasPrefix(s, "channel.go") || (strings.HasPrefix(s, "server.go") && strings.HasSuffix(s, ":go")) ||
+		isSession := strings.HasPrefix(s, "channel.go") || strings.HasPrefix(s, "server_channel.go") || strings.HasPrefix(s, "client_channel.go") || (strings.HasPrefix(s, "server.go") && strings.HasSuffix(s, ":go")) ||
 			strings.HasPrefix(s, "websocket_transport.go:6") || strings.HasPrefix(s, "websocket_transport.go:9") || strings.HasPrefix(s, "client.go")
 		if isSession {
 			left = append(left, fmt.Sprintf("%s(%s at %s, %s)", ti.ID, ti.SpawnSite, ti.Site, ti.State))
@@ -373,8 +407,8 @@ func init() {
 		MaxSim:    3 * time.Hour,
 		PanicRule: "C13.panic",
 		Rule: "plans = (listener kind tcp/tcp+tls/ws/wss/in-process, buffer sizes incl. 0, terminator in {client FinishSession, server FinishSession, server FailSession, Client.Close of the high-level client, Server.Close}, the instant of the end relative to establishment, " +
-			"0-2 sender tasks per direction with traffic in flight, slow handlers/consumers, client consuming through a mux or four stream readers, benign link faults); oracle: terminating call returns and disconnects the initiator, peer reaches the terminal state, " +
-			"receiver-done and streams close and consumers return within 30 s, Finished fires once, after both sides closed no session goroutine and no open connection end remains; goroutine panics are violations; non-trivial = session established; distinct = distinct (plan JSON, event-log hash)",
+			"0-2 sender tasks per direction with traffic in flight, slow handlers/consumers, client consuming through a mux or four stream readers, benign link faults, terminating calls with a context of 1-400 ms that may give up mid-way); oracle: terminating call returns and disconnects the initiator, peer reaches the terminal state, " +
+			"receiver-done and streams close and consumers return within 30 s, Finished fires once, a send on the ended session is refused rather than left blocked, after both sides closed no session goroutine and no open connection end remains; goroutine panics are violations; non-trivial = session established; distinct = distinct (plan JSON, event-log hash)",
 	})
 }
 
